@@ -196,7 +196,7 @@ struct Interp {
             // render
             std::string sw = std::string("-") + o.sc, lw = "--" + o.lname;
             if (o.kind == ARGS) {
-                if (sp == 4) { std::string j; for (size_t k = 0; k < u.list.size(); k++) { if (k) j += " "; j += u.list[k]; } argv.push_back(lw + "=" + j); ctx.label("spelling:--exec=\"w1 w2\""); prev = P_OTHER; }
+                if (sp == 4) { long ws = op.i(2); std::string j; if (ws & 2) j += " "; for (size_t k = 0; k < u.list.size(); k++) { if (k) j += (ws & 4) ? "  " : " "; j += u.list[k]; } if (ws & 1) j += " "; if (ws & 7) ctx.label("spelling:--exec= with leading/trailing/double blanks");   /* white space around the words of the value adds no word */ argv.push_back(lw + "=" + j); ctx.label("spelling:--exec=\"w1 w2\""); prev = P_OTHER; }
                 else { argv.push_back(sp == 2 ? sw : lw); for (auto &w : u.list) argv.push_back(w); ended = true; ctx.label("spelling:arglist-swallows-rest"); }
             } else switch (sp) {
                 case 0: argv.push_back(sw); prev = o.kind == BOOL ? P_BOOL_NOVAL : P_ABST_NOVAL; if (o.kind == ABST) pending_abst = argv.size() - 1; ctx.label("spelling:-x"); break;
